@@ -21,7 +21,7 @@ def scenarios(tier):
              ("rm", "d2", "ln"), ("mkdir", "d2", "newdir")]
     sc = [("adds", Config(levels=1, ndisks=2), base, adds, True, ()),
           ("adds", Config(levels=2, ndisks=2, contents=["c0/content", "c1/content", "d1/.content"]), base, adds, True, ()),
-          ("mixed", Config(levels=2, ndisks=2), base, mixed, False, ()),
+          ("mixed", Config(levels=2, ndisks=2, uuid=True), base, mixed, False, ()),
           ("mixed", Config(levels=1, ndisks=2, contents=["c0/content", "c1/content"]), base, mixed, False, ()),
           # a hash migration is pending while the sync is interrupted
           ("adds-rehash", Config(levels=2, ndisks=2), base + [("cmd", "rehash")], adds, True, ())]
@@ -29,6 +29,11 @@ def scenarios(tier):
            ("mixed-prehash", Config(levels=1, ndisks=2), base, mixed, False, ("-h",)),
            ("adds-prehash", Config(levels=2, ndisks=2), base, adds, True, ("-h",)),
            ("adds-hash8", Config(levels=2, ndisks=2, hashkind="spooky2", hashsize=8), base, adds, True, ())]
+    # format-3 content (split parity) and a sync that does not change the parity size: the content saved before the parity update
+    # is then the only thing that tells an interrupted sync from a completed one; with and without --force-empty
+    nogrow = [("write", "d2", "B", 1900, 0)]
+    split = Config(levels=1, ndisks=2, splits={0: 2}, parity_limit=6144, contents=["c0/content", "c1/content"])
+    sc += [("adds-nogrow-split", split, base, nogrow, True, ()), ("adds-nogrow-split-E", split, base, nogrow, True, ("-E",))]
     if tier == "thorough":
         sc += [("adds", Config(levels=3, ndisks=2, splits={0: 2, 1: 2, 2: 2}, parity_limit=4096), base, adds, True, ()),
                ("mixed", Config(levels=6, ndisks=2), base, mixed, False, ()),
